@@ -105,6 +105,9 @@ struct Session<S: Suite> {
     started: bool,
     done_at: Option<u64>,
     attempts: u32,
+    /// Attempts started after the network healed (bounded: a session that still fails after this many
+    /// clean attempts is reported by the liveness oracle instead of being retried for ever).
+    attempts_after_heal: u32,
     cur: Option<Attempt<S>>,
     final_sig: Vec<u8>,
 }
@@ -172,6 +175,8 @@ struct Signer<S: Suite> {
 pub struct Cfg {
     pub tier: Tier,
     pub big_n: bool,
+    /// Many participating signers (10 and more), clustered small identifiers plus a few large ones.
+    pub many: bool,
 }
 
 struct W<'a, S: Suite> {
@@ -799,6 +804,9 @@ impl<'a, S: Suite> W<'a, S> {
             return;
         }
         sess.attempts += 1;
+        if self.healed {
+            sess.attempts_after_heal += 1;
+        }
         let att = sess.attempts;
         let healed = self.healed;
         let mode = if !healed && self.sloppy_rate > 0 && self.t.chance(self.sloppy_rate, 1000) {
@@ -1320,7 +1328,7 @@ impl<'a, S: Suite> W<'a, S> {
         self.out.probe("probe.frost.attempt_failed_and_retried");
         self.sessions[si].cur = None;
         let cap = 14;
-        if self.sessions[si].attempts < cap || self.healed {
+        if (!self.healed && self.sessions[si].attempts < cap) || (self.healed && self.sessions[si].attempts_after_heal < 12) {
             // small backoff, then a fresh attempt with fresh commitments
             self.q.after(2 * MS, Ev::ClientRequest(s));
         }
@@ -1584,7 +1592,42 @@ pub fn run<S: Suite>(t: &mut Tape, cfg: &Cfg, out: &mut RunOut) {
             i += 1;
         }
     }
-    let idents: Vec<u64> = idents.into_iter().collect();
+    let mut idents: Vec<u64> = idents.into_iter().collect();
+    // ---- many-signers slice: overrides the sizes above
+    let (tmin, n) = if cfg.many {
+        let nact = 10 + t.usize(if cfg.tier == Tier::Thorough { 55 } else { 15 });
+        let nlarge = t.usize(4).min(nact - 2);
+        let m = nact - nlarge;
+        let mut set: BTreeSet<u64> = (1..=m as u64).collect();
+        let pool = [300u64, 256, 257, 255, 1000, 2000, 65535];
+        let top = if cfg.tier == Tier::Thorough { 2054 } else { 300 };
+        let mut g = 0;
+        while set.len() < nact && g < 100 {
+            let c = pool[t.usize(pool.len())].min(top);
+            if c > m as u64 {
+                set.insert(c);
+            }
+            g += 1;
+        }
+        let mut extra = m as u64 + 1;
+        while set.len() < nact {
+            set.insert(extra);
+            extra += 1;
+        }
+        idents = set.into_iter().collect();
+        let n2 = (*idents.last().unwrap() as usize).max(nact + t.usize(4));
+        // the threshold is anywhere between 2 and all of them, biased to "most of them"
+        let tm = match t.usize(3) {
+            0 => 2 + t.usize(nact - 1),
+            _ => nact - t.usize(nact / 2),
+        }
+        .max(2)
+        .min(nact);
+        out.probe("probe.frost.many_signers_world");
+        (tm, n2)
+    } else {
+        (tmin, n)
+    };
 
     // ---- fault configuration (swarm style)
     let heal_at = (80 + t.choose(400)) * MS;
@@ -1628,7 +1671,13 @@ pub fn run<S: Suite>(t: &mut Tape, cfg: &Cfg, out: &mut RunOut) {
             return;
         }
     };
-    let (all_pks, gpk2) = S::derive_group_info(n, vss2);
+    let skip_derive = cfg.many && n > 96;
+    let (all_pks, gpk2) = if skip_derive {
+        // (as the sample program does: each signer's public key taken from its share)
+        (shares.iter().map(|sh| S::share_public(*sh)).collect::<Vec<_>>(), gpk)
+    } else {
+        S::derive_group_info(n, vss2)
+    };
     if S::gpk_encode(gpk2) != gpk_enc {
         out.violate("C15", format!("frost/{}/complete:derive_group_info", S::NAME), "derived group key differs from the dealer's".into());
     }
@@ -1709,7 +1758,7 @@ pub fn run<S: Suite>(t: &mut Tape, cfg: &Cfg, out: &mut RunOut) {
             2 => t.usize(200),
             _ => t.usize(2048),
         };
-        sessions.push(Session::<S> { msg: rng.bytes(mlen), k, requested_at: 0, started: false, done_at: None, attempts: 0, cur: None, final_sig: Vec::new() });
+        sessions.push(Session::<S> { msg: rng.bytes(mlen), k, requested_at: 0, started: false, done_at: None, attempts: 0, attempts_after_heal: 0, cur: None, final_sig: Vec::new() });
     }
     out.summary = format!(
         "FROST {} t={} n={} active idents {:?} sessions {} (k={:?}) faults: net drop/dup/reorder/corrupt/stale={}/{}/{}/{}/{} per 1000, crash {} disk {} rng_repeat {} sloppy {} heal_at {}ms",
